@@ -13,7 +13,9 @@ abbrev Name := List Char
 
 /-- Deviations of the code from the property, one per call site. -/
 structure ModQuirks where
-  /-- `Item::Use`: a `with` variable the module never declares is accepted (and becomes a member) -/
+  /-- `Item::Use` before fix 17cd11e: a `with` variable the module does not declare with `!default`
+  (never declared at all, or declared without `!default`) is accepted; an undeclared one even
+  becomes a member -/
   withUnknownUse : Bool := false
   /-- `Item::Forward`: the same in the `@forward … with` loop -/
   withUnknownForward : Bool := false
@@ -88,8 +90,10 @@ def runDecls : List Decl → Members → Members
     if d.kind = .var ∧ d.dflt ∧ (lookup acc .var d.name).isSome then runDecls rest acc
     else runDecls rest (insert acc ⟨d.kind, d.name, d.val⟩)
 
+/-- the module declares `$n … !default` (what `check_config` of fix 17cd11e looks for: a
+configured name must be met by a `!default` declaration) -/
 def declares (decls : List Decl) (n : Name) : Bool :=
-  decls.any fun d => d.kind = .var ∧ d.name = n
+  decls.any fun d => d.kind = .var ∧ d.name = n ∧ d.dflt
 
 /-- load a module with a configuration.  `acceptUnknown` is the deviation flag of the site. -/
 def configure (acceptUnknown : Bool) (withs : List (Name × Nat)) (decls : List Decl) :
